@@ -6,18 +6,16 @@
    with junk to show that).  With Export = TRUE every terminal state is printed as JSON for replay into the real
    compute_versioned_margin_estimate / _extrapolate_unit_margin.
 
-   AllowZeroFinal = FALSE removes the class "positive turnout revised to 0 in the last version" (open finding V2);
-   the *_V2 configuration admits it and TLC reproduces the counterexample of AllMissing. *)
+   The *_V1_* and *_V2 configurations switch the two defects of the code as first found back on
+   (IntTruncation / MonotoneOnRescaled) and TLC reproduces the counterexamples of Convex / AllMissing. *)
 EXTENDS VersionedMargin, Json
 
-CONSTANTS MaxV, MaxTurnout, PevChoices, AllowZeroFinal, Export
+CONSTANTS MaxV, MaxTurnout, PevChoices, Export
 
 Triples == {v \in [t : 0..MaxTurnout, d : 0..MaxTurnout, g : 0..MaxTurnout] : v.d + v.g <= v.t}
-ZeroFinal(h) == h[Len(h)].t = 0 /\ \E i \in 1..Len(h) : h[i].t > 0
 
 Init ==
   /\ \E n \in 1..MaxV : \E h \in [1..n -> Triples] : \E pv \in PevChoices :
-       /\ (AllowZeroFinal \/ ~ZeroFinal(h))
        /\ sc = [hist |-> h, pev |-> <<pv, 1>>]
   /\ InitRest
 
